@@ -11,7 +11,7 @@ from fractions import Fraction
 import framework as F
 
 ID = "C06"
-GEN = ["Infra", "Interpolation"]
+GEN = ["Infra", "Interpolation", "Conv"]
 LEVEL = "proof"
 TECHNIQUE = ("Coq proof by composition: the delayed branch of LinearDense / LinearDirect / LinearLateral / Conv2D forward and the "
              "syncurrent / synspike views are modelled as selector construction -> C04 current_at / spike_at -> C05 contraction; "
@@ -621,7 +621,7 @@ def judge(case, mtree, res):
     mism, ofail = [], []
     if "crash" in res:
         return [{"case": case, "detail": {"implementation_crashed": res["crash"]}}], []
-    for f in oracle_case(case, res):
+    for f in oracle_case(case, res)[:2]:          # at most two failing observations per case go into the evidence
         ofail.append({"case": case, "detail": {k: v for k, v in f.items() if k != "signature"}, "signature": f["signature"]})
     if isinstance(mtree, Exception):
         mism.append({"case": case, "detail": str(mtree)})
